@@ -181,35 +181,39 @@ func VH_C01_PopThenInsert() {
 	vhReach("pop-insert-done")
 }
 
-// Two live handles to the same nested array (known finding F4): when one
+// Two live handles to the same nested array. Known finding F4: when one
 // handle's operation replaces the child's root slab object (root split,
 // promotion, bulk pop), the other handle keeps the old object. The label
 // distinguishes that situation from any disagreement while both handles still
-// share the root object (which would be a new violation).
+// share the root object (which is a new violation): histories of appends and
+// removes through either handle, sizes symbolic, so the child crosses the
+// inline limit in both directions under both handles.
 //
 //vh:prop C10
-//vh:param grow 5 6
+//vh:param aliasops 3 4
+//vh:param aliasinit 2 3
 func VH_C10_AliasHandles() {
 	vhSetThreshold(256)
-	grow := vhParam("grow", 5)
+	nops := vhParam("aliasops", 3)
 	storage := vhNewBasicStorage()
 	addr := vhAddr(1)
 	parent, _ := NewArray(storage, addr, vTypeInfo{id: 42})
 	child, _ := NewArray(storage, addr, vTypeInfo{id: 42})
+	childVID := child.ValueID()
+	var cm []uint64
+	tag := uint64(10)
+	ninit := vhChoose("ninit", vhParam("aliasinit", 2)+1)
+	for i := 0; i < ninit; i++ {
+		_ = child.Append(vElem{tag: tag, size: vhRange32("csz", 1, 117)})
+		cm = append(cm, tag)
+		tag++
+	}
 	_ = parent.Append(child)
 	v1, err1 := parent.Get(0)
 	v2, err2 := parent.Get(0)
 	vhAssert(err1 == nil && err2 == nil, "setup: get child twice")
-	h1, h2 := v1.(*Array), v2.(*Array)
-	var cm []uint64
-	n := 1 + vhChoose("n", grow)
-	for i := 0; i < n; i++ {
-		t := uint64(10 + i)
-		err := h2.Append(vElem{tag: t, size: vhRange32("csz", 1, 117)})
-		vhAssert(err == nil, "grow through second handle")
-		cm = append(cm, t)
-	}
-	replaced := h1.root != h2.root
+	hs := []*Array{v1.(*Array), v2.(*Array)}
+	replaced := false
 	check := func(c bool, what string) {
 		if replaced {
 			vhAssert(c, "alias-after-root-replacement: "+what)
@@ -217,19 +221,47 @@ func VH_C10_AliasHandles() {
 			vhAssert(c, "alias-shared-root: "+what)
 		}
 	}
-	check(h1.Count() == uint64(len(cm)), "first handle sees the same count")
-	err := h1.Append(vElem{tag: 99, size: vhRange32("csz", 1, 117)})
-	check(err == nil, "append through first handle")
-	if err != nil {
-		return
-	}
-	cm = append(cm, 99)
-	verr := VerifyArray(parent, addr, vTypeInfo{id: 42}, vhTic, vhHip, true)
-	check(verr == nil, "parent valid after append through first handle")
-	pv, err := parent.Get(0)
-	if err == nil {
-		pc := pv.(*Array)
-		check(pc.Count() == uint64(len(cm)), "append through first handle visible through parent")
+	for k := 0; k < nops; k++ {
+		h := hs[vhChoose("handle", 2)]
+		if vhChoose("op", 2) == 0 {
+			err := h.Append(vElem{tag: tag, size: vhRange32("csz", 1, 117)})
+			check(err == nil, "append through a handle")
+			if err != nil {
+				return
+			}
+			cm = append(cm, tag)
+			tag++
+		} else {
+			if len(cm) == 0 {
+				return
+			}
+			s, err := h.Remove(0)
+			check(err == nil, "remove through a handle")
+			if err != nil {
+				return
+			}
+			vhDispose(storage, s)
+			cm = cm[1:]
+		}
+		if hs[0].root != hs[1].root {
+			replaced = true
+		}
+		check(hs[0].Count() == uint64(len(cm)) && hs[1].Count() == uint64(len(cm)), "both handles see the same count")
+		verr := VerifyArray(parent, addr, vTypeInfo{id: 42}, vhTic, vhHip, true)
+		check(verr == nil, "parent valid after mutation through a handle")
+		pv, err := parent.Get(0)
+		check(err == nil, "child readable through parent")
+		if err == nil {
+			pc := pv.(*Array)
+			check(pc.ValueID() == childVID, "child value id stable")
+			check(pc.Count() == uint64(len(cm)), "mutation visible through parent")
+			if pc.Count() == uint64(len(cm)) {
+				for j, want := range cm {
+					e, err := pc.Get(uint64(j))
+					check(err == nil && vhTagOf(e) == want, "child content through parent")
+				}
+			}
+		}
 	}
 	vhReach("alias-done")
 }
